@@ -1,5 +1,7 @@
 import IsoVerif.Driver.Core
 import IsoVerif.Model.Serial
+import IsoVerif.Model.Reuse
+import IsoVerif.Driver.C12
 
 /-!
 Driver ops of C15.  Transport conventions (both directions):
@@ -9,7 +11,7 @@ Driver ops of C15.  Transport conventions (both directions):
 * a writer answers the hex string or `{"error": ..}`; a reader answers `{"v": value, "rest": #unread bytes}` or `{"error": ..}`.
 -/
 namespace IsoVerif.Driver.C15
-open Lean IsoVerif.Driver IsoVerif.Gen IsoVerif.Model IsoVerif.Model.Serial
+open Lean IsoVerif.Driver IsoVerif.Gen IsoVerif.Model IsoVerif.Model.Serial IsoVerif.Model.C15
 
 /-! ### transport helpers -/
 
@@ -162,6 +164,34 @@ def jInfo (j : Json) : Except String SaveInfo := do
 def ofInfo (i : SaveInfo) : Json := Json.mkObj [
   ("total", ofInt i.totalAssignments), ("polya", ofInt i.polyaAssignments), ("groups", ofList ofS i.readGroups)]
 
+/-! ### reuse clause (Model/Reuse.lean): strings are interned by position in a table sent with the request -/
+
+/-- `table` = the strings of the case (chromosome names first, in processing order); `derive` = per gene-id list of
+    a header what the gene database gives: [[interned transcript id, number of introns]] -/
+def jEnv (j : Json) : Except String Env := do
+  let tbl ← jList jS (← arg j "table")
+  let dt ← jList (jPair (jList jS) (jList (jPair jNat jNat))) (← arg j "derive")
+  pure { intern := fun s => tbl.idxOf s, name := fun n => tbl[n]?.getD "",
+         code := fun r => r.assignmentId.toNat, derive := fun h => (dt.lookup h.geneIds).getD [] }
+
+def jGroup (j : Json) : Except String (Group ReadAssignment) := do
+  pure (← jHeader (← arg j "gene"), ← jList jRA (← arg j "reads"))
+
+def jChrIn (j : Json) : Except String ChrIn := do
+  pure { name := ← jS (← arg j "name"), groups := ← jList jGroup (← arg j "groups") }
+
+def jChrFiles (j : Json) : Except String ChrFiles := do
+  pure { save := ← jHex (← arg j "save"), multimappers := ← jHex (← arg j "mm") }
+
+def jSaved (j : Json) : Except String Saved := do
+  pure { info := ← jHex (← arg j "info"), chrs := ← jList jChrFiles (← arg j "chrs") }
+
+def ofSaved (f : Saved) : Json :=
+  Json.mkObj [("info", ofHex f.info),
+              ("chrs", ofList (fun c => Json.mkObj [("save", ofHex c.save), ("mm", ofHex c.multimappers)]) f.chrs)]
+
+def ofRunOut (o : RunOut) : Json := Json.mkObj [("info", ofInfo o.info), ("out", C12.ofOutput o.out)]
+
 /-! ### op table -/
 
 def wr {α} (dec : Json → Except String α) (f : α → Option Bytes) : Handler := fun j => do
@@ -214,7 +244,32 @@ def ops : List (String × Handler) := [
   ("enc_multimap", wr (jList (jList jBasic)) writeMultimap),
   ("load_multimap", rd loadMultimap (ofList (ofList ofBasic))),
   ("enc_info", wr jInfo writeSaveInfo),
-  ("dec_info", rd readSaveInfo ofInfo)
+  ("dec_info", rd readSaveInfo ofInfo),
+  ("collect_reads", fun j => do
+      let E ← jEnv j
+      match collectReads E (← jBool (← arg j "high_memory")) (← jList jS (← arg j "read_groups"))
+              (← jList jChrIn (← arg j "chroms")) with
+      | some f => pure (ofSaved f)
+      | none => pure (jErr "error")),
+  ("process_saved", fun j => do
+      let E ← jEnv j
+      let cfg ← C12.jConfig (← arg j "cfg")
+      match processSaved E cfg (← jList jNat (← arg j "unmapped")) (← jList jS (← arg j "names"))
+              (← jSaved (← arg j "files")) with
+      | some o => pure (ofRunOut o)
+      | none => pure (jErr "error")),
+  ("saving_run", fun j => do
+      let E ← jEnv j
+      let cfg ← C12.jConfig (← arg j "cfg")
+      match savingRun E cfg (← jList jS (← arg j "read_groups")) (← jList jNat (← arg j "unmapped"))
+              (← jList jChrIn (← arg j "chroms")) with
+      | some (f, o) => pure (Json.mkObj [("files", ofSaved f), ("run", ofRunOut o)])
+      | none => pure (jErr "error")),
+  ("load_verdicts", fun j => do
+      let E ← jEnv j
+      match loadVerdicts E (← jS (← arg j "chr")) (← jHex (← arg j "b")) with
+      | some d => pure (ofList (fun kv => Json.arr #[ofNat kv.1, ofList C08.ofRec kv.2]) d)
+      | none => pure (jErr "error"))
 ]
 
 end IsoVerif.Driver.C15
